@@ -134,13 +134,13 @@ HANDCRAFTED = [
 ]
 
 
-def scenarios(seed, tier):
+def scenarios(seed, tier, want=None):
     rng = random.Random(seed)
     out = []
     for k, h in enumerate(HANDCRAFTED):
         out.append(dict(h, id=100 + k, seed=1000 * seed + 7 + k))
     # evaluation budgets that end inside a leaf deme's metaepoch (the last generation before the stop must be kept: C04, C05)
-    for k in range(8 if tier == "quick" else 30):
+    for k in range((40 if want in ("C04", "C05", "C03") else 8) if tier == "quick" else 120):
         out.append(dict(kinds=[rng.choice(["sea", "de"]), rng.choice(["de", "shade", "sea"])], objective="funnels", box="sym2", maximize=rng.random() < 0.3,
                         generations=2, leaf_generations=3, sprout="nbc", level_limit=3, gsc="evals", gsc_n=rng.choice([2, 3, 4, 5]),
                         evals_extra=rng.randrange(0, 60), lsc="dontstop", hibernation=False, wrap="none", id=200 + k, seed=rng.randrange(10 ** 6)))
@@ -728,7 +728,7 @@ def main():
     known_hits = []
     want = a.pid
     t0 = time.time()
-    scs = scenarios(a.seed, a.tier)
+    scs = scenarios(a.seed, a.tier, want)
     if want == "FINGERPRINT":
         import hashlib
         sc = scs[int(a.obligation)]
